@@ -1836,6 +1836,13 @@ static void output_cmt_start(cmt_reflow &cmt, Chunk *pc)
          || pc->GetParentType() == CT_COMMENT_WHOLE))
    {
       cmt.column = align_tab_column(cmt.column - 1);
+
+      if (  pc->GetParentType() == CT_COMMENT_END
+         && cmt.column < cpd.column + 1)
+      {
+         // keep a blank between the code and the trailing comment
+         cmt.column = align_tab_column(cpd.column + 1);
+      }
       // LOG_FMT(LSYS, "%s: line %d, orig:%d new:%d\n",
       //        __func__, pc->GetOrigLine(), pc->GetColumn(), cmt.column);
       pc->SetColumn(cmt.column);
